@@ -220,6 +220,28 @@ def identities(D, M, kinds):
             Lt = cs[None, :] + (ytest - xopt) @ gs
             err = max(float(np.max(np.abs(np.sum(L, axis=1) - 1.0))), float(np.max(np.abs(np.sum(Lt, axis=1) - 1.0))))
         run.emit("Ident", kind="lagrange", ok=bool(err <= tol), evaluable=True, err=err, bound=float(tol))
+    # the same identities in the model's OWN coordinates (its stored points relative to xbase): there nothing depends on the size of xbase - that is
+    # what the base point is for - so the bound is the conditioning of the point set alone, without the (|x| / spread) factor that the rounding of
+    # fl(xbase + y) forces on the clauses above.  A fit that goes through absolute coordinates loses exactly that factor.
+    tol_rel = 1e3 * EPS * cond
+    Yr = np.array([M.xpt(k) for k in range(npt)])
+    if "interp" in kinds:
+        pred = np.array([M.model_value(Yr[k], d_based_at_xopt=False, with_const_term=True) for k in range(npt)])
+        E = pred - M.fval_v[:npt, :]
+        jn = float(np.linalg.norm(M.model_jac)) * float(np.max(np.abs(Yr))) if npt else 0.0      # size of the terms of J*y + c before cancellation
+        tol_v = tol_rel * max(1.0, jn / scale)
+        if npt <= n + 1:
+            err = float(np.max(np.abs(E))) / scale
+            run.emit("Ident", kind="interp_own_coordinates", ok=bool(err <= tol_v), evaluable=True, err=err, bound=float(tol_v))
+        else:
+            Wd = np.hstack([np.ones((npt, 1)), (Yr - xopt) / max(spread, 1e-300)])
+            err = float(np.max(np.abs(Wd.T @ E))) / (scale * npt)
+            run.emit("Ident", kind="normal_eq_own_coordinates", ok=bool(err <= tol_v), evaluable=True, err=err, bound=float(tol_v))
+    if "lagrange" in kinds:
+        cs, gs = M.lagrange_gradient(None)
+        L = cs[None, :] + (Yr - xopt) @ gs
+        err = float(np.max(np.abs(L - np.eye(npt)))) if npt <= n + 1 else float(np.max(np.abs(np.sum(L, axis=1) - 1.0)))
+        run.emit("Ident", kind="lagrange_own_coordinates", ok=bool(err <= tol_rel), evaluable=True, err=err, bound=float(tol_rel))
     if "qr" in kinds and M.factorisation_current:
         W = _W(M)
         QR = M.Q @ M.R
